@@ -121,6 +121,7 @@ Proof.
   destruct (e_kind e a).
   - eapply winv_set_cell; eassumption.
   - destruct (ptr s a) as [c|]; [|injection H as <- _; exact H0].
+    destruct (memz a (content s c)); [|injection H as <- _; exact H0].
     destruct (remove_agent (set_reg s a false) c a) as [s1 r1] eqn:E1.
     pose proof (winv_remove_agent n _ c a s1 r1 H0 E1) as H1.
     destruct r1; injection H as <- _; exact H1.
